@@ -47,6 +47,9 @@ COND_FORMS = [
     ("two:header+exists", lambda V: [("Subject", ":contains", V), ("exists", "X-Spam")]),
     ("two:not+size", lambda V: [("Sender", ":notis", V), ("size", ":over", "1M")]),
     ("three:mixed", lambda V: [("notexists", "X-A"), ("To", ":matches", V), ("body", ":raw", ":notcontains", "z")]),
+    ("dup:[A,A]", lambda V: [("Subject", ":is", V), ("Subject", ":is", V)]),
+    ("dup:[A,B,A]", lambda V: [("exists", V), ("size", ":over", "1k"), ("exists", V)]),
+    ("dup:[notA,B,notA]", lambda V: [("Subject", ":notcontains", V), ("exists", "X"), ("Subject", ":notcontains", V)]),
 ]
 ACTION_FORMS = [
     ("fileinto", lambda V: [("fileinto", V)]),
